@@ -718,7 +718,7 @@ nodesLoop:
 					if ti.Nil() {
 						panic(tc.errorf(node, "use of untyped nil"))
 					}
-					err := checkShow(ti.Type, node.Context)
+					err := checkShow(ti.Type, node.Context, tc.inURL)
 					if err != nil {
 						panic(tc.errorf(node, "cannot show %s (%s)", expr, err))
 					}
@@ -839,7 +839,9 @@ nodesLoop:
 			}
 
 		case *ast.URL:
+			tc.inURL = true
 			node.Value = tc.checkNodes(node.Value)
+			tc.inURL = false
 
 		case *ast.UnaryOperator:
 			ti := tc.checkExpr(node)
@@ -1399,8 +1401,9 @@ func (tc *typechecker) explodeUsingStatement(using *ast.Using, iteaIdent string)
 var byteSliceType = reflect.TypeFor[[]byte]()
 var timeType = reflect.TypeFor[time.Time]()
 
-// checkShow type checks the show of a value of type t in context ctx.
-func checkShow(t reflect.Type, ctx ast.Context) error {
+// checkShow type checks the show of a value of type t in context ctx. inURL
+// reports whether the value is shown in a URL.
+func checkShow(t reflect.Type, ctx ast.Context, inURL bool) error {
 	if t == emptyInterfaceType {
 		return nil
 	}
@@ -1461,8 +1464,8 @@ func checkShow(t reflect.Type, ctx ast.Context) error {
 		case reflect.Bool <= kind && kind <= reflect.Complex128:
 		case t.Implements(stringerType):
 		case t.Implements(envStringerType):
-		case t.Implements(mdStringerType):
-		case t.Implements(mdEnvStringerType):
+		case !inURL && t.Implements(mdStringerType):
+		case !inURL && t.Implements(mdEnvStringerType):
 		case t.Implements(htmlStringerType):
 		case t.Implements(htmlEnvStringerType):
 		case t.Implements(errorType):
